@@ -40,12 +40,22 @@ def translate(ctx):
     return fails
 
 
+def broken_config_combinations():
+    """macros M for which the regenerated table says: -DADEPT_STORAGE_THREAD_SAFE -DM no longer gives the thread-safe Storage"""
+    import re
+    path = os.path.join(os.environ.get("VERIF_LEAN", os.path.join(vbuild.VERIF, "lean")), "AdeptModel", "Generated", "StorageCfg.lean")
+    try:
+        return re.findall(r'\("(ADEPT_\w+)", false\)', open(path).read())
+    except OSError:
+        return []
+
+
 # ------------------------------------------------------------------ builds
 MINI_LAPACK = os.path.join(vbuild.VERIF, "harness", "mini_lapack.cpp")     # instrumented with the driver (no system LAPACK under TSan)
 
 
-def build(thread_safe):
-    defs = (["ADEPT_STORAGE_THREAD_SAFE"] if thread_safe else []) + ["HAVE_LAPACK=1"]
+def build(thread_safe, also=()):
+    defs = (["ADEPT_STORAGE_THREAD_SAFE"] if thread_safe else []) + ["HAVE_LAPACK=1"] + list(also)
     return vbuild.build("threads", [DRV, MINI_LAPACK], defines=defs, cxx="clang++-14", san="tsan",
                         extra=["-std=c++17", "-U" + vbuild.GUARD], link=["-pthread"], no_openmp=True)
 
@@ -210,7 +220,8 @@ def run_many(ctx, exe, label, mode, cases, workers=4):
 
 
 def replay_workload(ctx, r):
-    exe = build_omp() if r["build"] == "openmp-team" else build(r["build"] == "thread-safe")
+    b = r["build"]
+    exe = build_omp() if b == "openmp-team" else build(b.startswith("thread-safe"), also=b.split("+")[1:])
     run_many(ctx, exe, r["build"], r["mode"], [(r["threads"], r["workload_seed"], r["rounds"])], workers=1)
 
 
